@@ -44,11 +44,11 @@ AFFINE_REAL = 4096.0
 AFFINE_CSTEP = 64.0
 K_DIR = 1e5
 # extrapolated-order clause: |err| <= C_X[method] * T + C_XR * R + floor, (T, R) = truncation and rounding parts of
-# U_x (U_basic if k_est = 1); asserted for the short geometric user sequences (step kind 'geo') of every method and for the
-# default configuration of the real-step methods.  Worst err/T over truncation-dominated entries (8 quick seeds +
-# thorough seed 0, 178 000 cases): central 4.8, complex 0.29, multicomplex (order 2) 8.3, forward 422, backward 31;
-# worst err/R over rounding-dominated entries 2.1e3.
-C_X = {'central': 50.0, 'complex': 3.0, 'multicomplex': 100.0, 'forward': 5e3, 'backward': 500.0}
+# U_x (U_basic if k_est = 1); asserted for the short geometric user sequences (step kind 'geo') of every method and
+# for the default configuration of the real-step methods.  Worst err/T over truncation-dominated entries (thorough
+# seed 0, 127 000 cases): central 0.008, complex 0.019, multicomplex (order 2) 3e-4, forward 6.4, backward 27.5;
+# worst err/R over rounding-dominated entries 1.04e3.
+C_X = {'central': 3.0, 'complex': 3.0, 'multicomplex': 3.0, 'forward': 100.0, 'backward': 500.0}
 C_XR = 3e4
 ASSUME_KNOWN = bool(os.environ.get('NVERIF_ASSUME_KNOWN'))     # development aid only, never set by ./check
 OVERFLOW = 1e150
